@@ -116,7 +116,12 @@ func c19Rewrite(name, oldPrefix, newPrefix string) string {
 
 // ---- systems under test ----
 
-type c19Spec struct{ Prefix, Rewrite string }
+// Alias: the registration shares the backend of the one before it (two
+// prefixes referring to one labelled backend, each with its own rewrite)
+type c19Spec struct {
+	Prefix, Rewrite string
+	Alias           bool
+}
 
 type c19Info struct {
 	backend blobstore.BlobAccess
@@ -163,9 +168,15 @@ func c19DemuxConfig(regs []c19Reg) *pb.BlobAccessConfiguration {
 // prefix -> rewrite), which also allows later registration changes.
 func newC19Demux(w *c19World, specs []c19Spec, config, ac, build bool) *c19Demux {
 	dm := &c19Demux{w: w, config: config}
-	for _, s := range specs {
-		b := w.addBackend()
-		dm.regs = append(dm.regs, c19Reg{Prefix: s.Prefix, Rewrite: c19Effective(s), Backend: b.id, Active: true})
+	for i, s := range specs {
+		var id int
+		if s.Alias && i > 0 {
+			id = dm.regs[i-1].Backend
+			w.c.Count("probe_prefixes_sharing_backend", 1)
+		} else {
+			id = w.addBackend().id
+		}
+		dm.regs = append(dm.regs, c19Reg{Prefix: s.Prefix, Rewrite: c19Effective(s), Backend: id, Active: true})
 	}
 	if config {
 		if build {
@@ -522,6 +533,20 @@ func c19DemuxOp(c *sim.RunCtx, dm *c19Demux, idx int, op *c19Op) {
 	checkCalls := func(faulty bool) bool {
 		calls := w.sortedCalls()
 		c.Logf("  backend calls: %s", c19CallsString(calls))
+		if op.Kind == c19Find {
+			// how many calls a backend receives is not part of the statement
+			// (two prefixes may share one backend): what each backend was
+			// asked about, in which names, is
+			var merged []c19Call
+			for _, g := range calls {
+				if n := len(merged); n > 0 && merged[n-1].Backend == g.Backend && merged[n-1].Op == g.Op && g.Op == "FindMissing" {
+					merged[n-1].Keys = c19DedupKeys(append(append([]c19Key{}, merged[n-1].Keys...), g.Keys...))
+					continue
+				}
+				merged = append(merged, g)
+			}
+			calls = merged
+		}
 		if w.bad != "" {
 			c.Fail(c19BadClass(w.bad), "%s [%s]", w.bad, desc)
 			return false
@@ -542,12 +567,16 @@ func c19DemuxOp(c *sim.RunCtx, dm *c19Demux, idx int, op *c19Op) {
 			// the fan-out stops at the failing backend: a subset is fine
 			wantSet := map[string]bool{}
 			for _, e := range expCalls {
-				wantSet[e.String()] = true
+				for _, k := range e.Keys {
+					wantSet[fmt.Sprintf("%d/%s/%s", e.Backend, e.Op, k)] = true
+				}
 			}
 			for _, g := range calls {
-				if !wantSet[g.String()] {
-					c.Fail("misrouted", "backend calls %s, expected a subset of %s [%s]", got, want, desc)
-					return false
+				for _, k := range g.Keys {
+					if !wantSet[fmt.Sprintf("%d/%s/%s", g.Backend, g.Op, k)] {
+						c.Fail("misrouted", "backend calls %s, expected a subset of %s [%s]", got, want, desc)
+						return false
+					}
 				}
 			}
 			return true
@@ -783,7 +812,7 @@ func c19DrawSpecs(t *sim.Tape, withRoot bool) []c19Spec {
 			continue
 		}
 		seen[p] = true
-		specs = append(specs, c19Spec{Prefix: p, Rewrite: rw})
+		specs = append(specs, c19Spec{Prefix: p, Rewrite: rw, Alias: t.Chance(1, 4)})
 	}
 	return specs
 }
